@@ -552,8 +552,8 @@ SPEC = {
          "tcond": 900, "tpath": 120, "bound": "v1, 1 rail, 2 turns",
          "smoke": [{"slice": {"n": 2, "exc": 0, "ver": "1.0", "turns": 3}, "args": dict(t0=1, a0=1, a1=0, t1=0, b0=0, b1=0, t2=1, c0=2, c1=1)},
                    {"slice": {"n": 1, "exc": 1, "ver": "1.0", "turns": 3}, "args": dict(t0=1, a0=1, a1=0, t1=1, b0=0, b1=0, t2=1, c0=2, c1=0)}]},
-        {"fn": "checked_v1", "tiers": ("thorough",), "slices": [{"n": 2, "exc": e, "ver": "1.0", "turns": 2, "fix": {"t0": t, "a0": a, "t1": t1}} for e in (0, 1) for t in (0, 1) for a in (0, 1, 2) for t1 in (0, 1)]
-            + [{"n": 1, "exc": e, "ver": "1.0", "turns": 3, "fix": {"t0": t, "a0": a, "t1": t1}} for e in (0, 1) for t in (0, 1) for a in (0, 1, 2) for t1 in (0, 1)],
+        {"fn": "checked_v1", "tiers": ("thorough",), "slices": [{"n": 2, "exc": 0, "ver": "1.0", "turns": 2, "fix": {"t0": t, "a0": a, "t1": t1}} for t in (0, 1) for a in (0, 1, 2) for t1 in (0, 1) if not (t == 0 and a > 0)]
+            + [{"n": 1, "exc": e, "ver": "1.0", "turns": 3, "fix": {"t0": t, "a0": a, "t1": t1}} for e in (0, 1) for t in (0, 1) for a in (0, 1, 2) for t1 in (0, 1) if not (t == 0 and a > 0) and not (e == 1 and a != 1)],
          "tcond": 3000, "tpath": 180, "bound": "v1, 2 rails x 2 turns; 1 rail x 3 turns"},
         {"fn": "checked_v1", "tiers": ("quick", "thorough"), "slices": [{"n": 1, "exc": e, "ver": "1.0", "turns": 2, "shipped": 1, "fix": {"t0": 1, "a0": a, "t1": 1}} for e in (0, 1) for a in (0, 1)],
          "tcond": 900, "tpath": 120, "bound": "v1, shipped `self check output` flow (action stubbed), 2 LLM-generated turns"},
